@@ -317,3 +317,71 @@ package interpreter
 //@   ensures[C05.drop_rest] (=> (= err nil) (forall ((k Int)) (=> (and (<= 0 k) (< k (len (. s stk)))) (= (at (. s stk) k) (old (at (. s stk) k))))))
 //@   loop 0 invariant (and (<= 0 n) (<= n n0) (= (len (. s stk)) (- (old (len (. s stk))) (- n0 n))))
 //@   loop 0 invariant (forall ((k Int)) (=> (and (<= 0 k) (< k (len (. s stk)))) (= (at (. s stk) k) (old (at (. s stk) k)))))
+//@ func interpreter.(*stack).DropN
+//@   ensures[C05.drop_err] (= (= err nil) (and (>= n 1) (<= n (old (len (. s stk))))))
+//@ func interpreter.(*stack).DupN
+//@   int-overflow check
+//@   ensures[C05.dup] (and (= (= err nil) (and (>= n 1) (<= n (old (len (. s stk)))))) (=> (= err nil) (= (len (. s stk)) (+ (old (len (. s stk))) n))))
+//@   ensures[C05.dup_rest] (=> (= err nil) (forall ((k Int)) (=> (and (<= 0 k) (< k (old (len (. s stk))))) (= (at (. s stk) k) (old (at (. s stk) k))))))
+//@   ensures[C05.dup_items] (=> (= err nil) (forall ((k Int)) (=> (and (<= (old (len (. s stk))) k) (< k (len (. s stk)))) (= (at (. s stk) k) (old (at (. s stk) (- k n)))))))
+//@   loop 0 invariant (and (<= 0 i) (<= i n) (>= n 1) (= (len (. s stk)) (+ (old (len (. s stk))) (- n i))) (or (= i n) (<= n (old (len (. s stk))))))
+//@   loop 0 invariant (forall ((k Int)) (=> (and (<= 0 k) (< k (old (len (. s stk))))) (= (at (. s stk) k) (old (at (. s stk) k)))))
+//@   loop 0 invariant (forall ((k Int)) (=> (and (<= (old (len (. s stk))) k) (< k (len (. s stk)))) (= (at (. s stk) k) (old (at (. s stk) (- k n))))))
+//@ func interpreter.(*stack).OverN
+//@   requires (<= n 1073741823)
+//@   ensures[C05.over] (and (= (= err nil) (and (>= n 1) (<= (* 2 n) (old (len (. s stk)))))) (=> (= err nil) (= (len (. s stk)) (+ (old (len (. s stk))) n))))
+//@   ensures[C05.over_rest] (=> (= err nil) (forall ((k Int)) (=> (and (<= 0 k) (< k (old (len (. s stk))))) (= (at (. s stk) k) (old (at (. s stk) k))))))
+//@   ensures[C05.over_items] (=> (= err nil) (forall ((k Int)) (=> (and (<= (old (len (. s stk))) k) (< k (len (. s stk)))) (= (at (. s stk) k) (old (at (. s stk) (- k (* 2 n0))))))))
+//@   loop 0 invariant (and (<= 0 n) (<= n n0) (>= n0 1) (= entry (- (* 2 n0) 1)) (= (len (. s stk)) (+ (old (len (. s stk))) (- n0 n))) (or (= n n0) (<= (* 2 n0) (old (len (. s stk))))))
+//@   loop 0 invariant (forall ((k Int)) (=> (and (<= 0 k) (< k (old (len (. s stk))))) (= (at (. s stk) k) (old (at (. s stk) k)))))
+//@   loop 0 invariant (forall ((k Int)) (=> (and (<= (old (len (. s stk))) k) (< k (len (. s stk)))) (= (at (. s stk) k) (old (at (. s stk) (- k (* 2 n0)))))))
+//@ func interpreter.(*stack).Tuck
+//@   opt forall-patterns 1
+//@   ensures[C05.tuck] (and (= (= err nil) (>= (old (len (. s stk))) 2)) (=> (= err nil) (and (= (len (. s stk)) (+ (old (len (. s stk))) 1)) (= (at (. s stk) (- (len (. s stk)) 1)) (old (at (. s stk) (- (len (. s stk)) 1)))) (= (at (. s stk) (- (len (. s stk)) 2)) (old (at (. s stk) (- (len (. s stk)) 2)))) (= (at (. s stk) (- (len (. s stk)) 3)) (old (at (. s stk) (- (len (. s stk)) 1)))))))
+//@   ensures[C05.tuck_rest] (=> (= err nil) (forall ((k Int)) (=> (and (<= 0 k) (< k (- (old (len (. s stk))) 2))) (= (at (. s stk) k) (old (at (. s stk) k))))))
+
+// stack manipulation opcodes (C05, partial): depth, moved item headers, everything below untouched
+//@ func interpreter.opcodeDrop
+//@   opt forall-patterns 1
+//@   ensures[C05.opcodeDrop] (and (= (= err nil) (>= (old (len (. t dstack stk))) 1)) (=> (= err nil) (and (= (len (. t dstack stk)) (- (old (len (. t dstack stk))) 1)) (forall ((k Int)) (=> (and (<= 0 k) (< k (len (. t dstack stk)))) (= (at (. t dstack stk) k) (old (at (. t dstack stk) k))))))))
+//@ func interpreter.opcode2Drop
+//@   opt forall-patterns 1
+//@   ensures[C05.opcode2Drop] (and (= (= err nil) (>= (old (len (. t dstack stk))) 2)) (=> (= err nil) (and (= (len (. t dstack stk)) (- (old (len (. t dstack stk))) 2)) (forall ((k Int)) (=> (and (<= 0 k) (< k (len (. t dstack stk)))) (= (at (. t dstack stk) k) (old (at (. t dstack stk) k))))))))
+//@ func interpreter.opcodeDup
+//@   opt forall-patterns 1
+//@   ensures[C05.opcodeDup] (and (= (= err nil) (>= (old (len (. t dstack stk))) 1)) (=> (= err nil) (and (= (len (. t dstack stk)) (+ (old (len (. t dstack stk))) 1)) (= (at (. t dstack stk) (old (len (. t dstack stk)))) (old (at (. t dstack stk) (- (len (. t dstack stk)) 1)))) (forall ((k Int)) (=> (and (<= 0 k) (< k (old (len (. t dstack stk))))) (= (at (. t dstack stk) k) (old (at (. t dstack stk) k))))))))
+//@ func interpreter.opcodeOver
+//@   opt forall-patterns 1
+//@   ensures[C05.opcodeOver] (and (= (= err nil) (>= (old (len (. t dstack stk))) 2)) (=> (= err nil) (and (= (len (. t dstack stk)) (+ (old (len (. t dstack stk))) 1)) (= (at (. t dstack stk) (old (len (. t dstack stk)))) (old (at (. t dstack stk) (- (len (. t dstack stk)) 2)))) (forall ((k Int)) (=> (and (<= 0 k) (< k (old (len (. t dstack stk))))) (= (at (. t dstack stk) k) (old (at (. t dstack stk) k))))))))
+//@ func interpreter.opcodeNip
+//@   opt forall-patterns 1
+//@   ensures[C05.opcodeNip] (and (= (= err nil) (>= (old (len (. t dstack stk))) 2)) (=> (= err nil) (and (= (len (. t dstack stk)) (- (old (len (. t dstack stk))) 1)) (= (at (. t dstack stk) (- (len (. t dstack stk)) 1)) (old (at (. t dstack stk) (- (len (. t dstack stk)) 1)))) (forall ((k Int)) (=> (and (<= 0 k) (< k (- (len (. t dstack stk)) 1))) (= (at (. t dstack stk) k) (old (at (. t dstack stk) k))))))))
+//@ func interpreter.opcodeTuck
+//@   opt forall-patterns 1
+//@   ensures[C05.opcodeTuck] (and (= (= err nil) (>= (old (len (. t dstack stk))) 2)) (=> (= err nil) (and (= (len (. t dstack stk)) (+ (old (len (. t dstack stk))) 1)) (= (at (. t dstack stk) (- (len (. t dstack stk)) 1)) (old (at (. t dstack stk) (- (len (. t dstack stk)) 1)))) (= (at (. t dstack stk) (- (len (. t dstack stk)) 2)) (old (at (. t dstack stk) (- (len (. t dstack stk)) 2)))) (= (at (. t dstack stk) (- (len (. t dstack stk)) 3)) (old (at (. t dstack stk) (- (len (. t dstack stk)) 1)))) (forall ((k Int)) (=> (and (<= 0 k) (< k (- (old (len (. t dstack stk))) 2))) (= (at (. t dstack stk) k) (old (at (. t dstack stk) k))))))))
+//@ func interpreter.opcodeDepth
+//@   opt forall-patterns 1
+//@   ensures[C05.opcodeDepth] (and (= err nil) (= (len (. t dstack stk)) (+ (old (len (. t dstack stk))) 1)) (= (bytes (at (. t dstack stk) (old (len (. t dstack stk))))) (enc_num (old (len (. t dstack stk))))) (forall ((k Int)) (=> (and (<= 0 k) (< k (old (len (. t dstack stk))))) (= (at (. t dstack stk) k) (old (at (. t dstack stk) k))))))
+//@ func interpreter.opcodeSize
+//@   opt forall-patterns 1
+//@   ensures[C05.opcodeSize] (and (= (= err nil) (>= (old (len (. t dstack stk))) 1)) (=> (= err nil) (and (= (len (. t dstack stk)) (+ (old (len (. t dstack stk))) 1)) (= (bytes (at (. t dstack stk) (old (len (. t dstack stk))))) (enc_num (old (len (at (. t dstack stk) (- (len (. t dstack stk)) 1)))))) (forall ((k Int)) (=> (and (<= 0 k) (< k (old (len (. t dstack stk))))) (= (at (. t dstack stk) k) (old (at (. t dstack stk) k))))))))
+//@ func interpreter.opcodeToAltStack
+//@   ensures[C05.opcodeToAltStack] (and (= (= err nil) (>= (old (len (. t dstack stk))) 1)) (=> (= err nil) (and (= (len (. t dstack stk)) (- (old (len (. t dstack stk))) 1)) (= (len (. t astack stk)) (+ (old (len (. t astack stk))) 1)) (= (at (. t astack stk) (old (len (. t astack stk)))) (old (at (. t dstack stk) (- (len (. t dstack stk)) 1)))))))
+//@ func interpreter.opcodeFromAltStack
+//@   ensures[C05.opcodeFromAltStack] (and (= (= err nil) (>= (old (len (. t astack stk))) 1)) (=> (= err nil) (and (= (len (. t dstack stk)) (+ (old (len (. t dstack stk))) 1)) (= (len (. t astack stk)) (- (old (len (. t astack stk))) 1)) (= (at (. t dstack stk) (old (len (. t dstack stk)))) (old (at (. t astack stk) (- (len (. t astack stk)) 1)))))))
+//@ func interpreter.(*stack).NipN
+//@   opt forall-patterns 1
+//@   ensures[C05.nipn] (and (= (= err nil) (and (<= 0 idx) (< idx (old (len (. s stk)))))) (=> (= err nil) (= (len (. s stk)) (- (old (len (. s stk))) 1))))
+//@   ensures[C05.nipn_below] (=> (= err nil) (forall ((k Int)) (=> (and (<= 0 k) (< k (- (- (old (len (. s stk))) 1) idx))) (= (at (. s stk) k) (old (at (. s stk) k))))))
+//@   ensures[C05.nipn_above] (=> (= err nil) (forall ((k Int)) (=> (and (<= (- (- (old (len (. s stk))) 1) idx) k) (< k (len (. s stk)))) (= (at (. s stk) k) (old (at (. s stk) (+ k 1)))))))
+// the data and alt stacks are two structs inside one thread object: their effects are framed per stack, not per object
+//@ func interpreter.(*stack).PushByteArray
+//@   assigns (. s stk) (elems (. s stk))
+//@ func interpreter.(*stack).nipN
+//@   assigns (. s stk) (elems (. s stk))
+//@ func interpreter.(*stack).PopByteArray
+//@   assigns (. s stk) (elems (. s stk))
+//@ func interpreter.(*stack).PopInt
+//@   assigns (. s stk) (elems (. s stk))
+//@ func interpreter.(*stack).PushInt
+//@   assigns (. s stk) (elems (. s stk))
